@@ -23,7 +23,7 @@ from tlslite import errors as E
 LEVEL = "fault_enumeration"
 
 NEG_KEYS = ("version", "suite", "etm", "ems", "appProto", "serverName",
-            "ticket", "resumed")
+            "ticket", "resumed", "group")
 
 
 def scenarios(tier):
@@ -56,6 +56,13 @@ def scenarios(tier):
         skw={"alpn": [b"http/1.1", b"h2"]})
     add("tls13-range-hrr", cred="rsa", minv=(3, 1), maxv=(3, 4),
         sminv=(3, 1), smaxv=(3, 4), cset={"keyShares": []})
+    # the client's only key share is for a group that is not first in
+    # anybody's preference: an induced retry would move the connection to
+    # another group
+    add("tls13-keyshare-p521", cred="rsa", minv=(3, 3), maxv=(3, 4),
+        sminv=(3, 3), smaxv=(3, 4), cset={"keyShares": ["secp521r1"]})
+    add("tls13-keyshare-ffdhe", cred="rsa", minv=(3, 3), maxv=(3, 4),
+        sminv=(3, 3), smaxv=(3, 4), cset={"keyShares": ["ffdhe3072"]})
     add("tls13-range-ecdsa-clientauth", cred="ecdsa", client_cred="c_rsa",
         req_cert=True, minv=(3, 3), maxv=(3, 4), sminv=(3, 3), smaxv=(3, 4))
     add("tls13-psk", flavour="psk", cred="rsa", minv=(3, 3), maxv=(3, 4),
@@ -152,6 +159,8 @@ def judge(pair, out, honest_view, rec_log=None):
         vc, vs = W.view(pair.c), W.view(pair.s)
         vc["ticket"] = honest_view.get("ticket")
         vc["resumed"] = bool(pair.c.resumed)
+        vc["group"] = pair.c.ecdhCurve if pair.c.ecdhCurve is not None \
+            else pair.s.ecdhCurve
         if rec_log is not None and tuple(pair.c.version) < (3, 4):
             issued = issued_ticket(rec_log)
             held = ticket_digest(pair.c)
@@ -338,6 +347,8 @@ def case(item):
     hv = W.view(pair.c)
     hv["ticket"] = ticket_digest(pair.c)
     hv["resumed"] = bool(pair.c.resumed)
+    hv["group"] = pair.c.ecdhCurve if pair.c.ecdhCurve is not None else \
+        pair.s.ecdhCurve
     rec["honest"] = negotiated(hv)
     if sc.name.endswith("-resumed") and not pair.c.resumed:
         rec["fails"].append(("honest", "harness: second connection of %s "
